@@ -1,6 +1,7 @@
 """C08 — flow calls bind parameters, defaults and return values; locals are private.
 
-Tie (no translator: the modelled part is logic, not data):
+Tie (the translator only locates/fingerprints the modelled functions and checks the reserved StartFlow keys;
+the modelled part is logic, not data):
   * fn   — differential on the real `create_flow_instance` + `_start_flow` (FlowConfig built by the repo's own
            parser from generated Colang source) against `Bind.createFlowInstance` / `Bind.startFlow`:
            `arguments` and `context` compared as ORDERED item lists, exceptions as an enum;
@@ -21,6 +22,7 @@ import json
 import signal
 
 from ..impl import valjson as vj
+from ..translate import c08 as tr
 
 PROPERTY = "C08"
 THEOREM_MODULE = "NemoVerif.Theorems.C08"
@@ -50,6 +52,10 @@ PNAMES = ["a", "b", "c", "d", "e", "p", "q"]
 VALUES = [None, True, False, 0, 1, 2, 7, 12, 0.5, 1.5, 2.25, "s", "hello world", "", "7", [], [1, 2], ["x", None], [[1], {"k": 2}], {}, {"k": 1},
           {"k": [1, 2], "j": None}, {"n": {"m": True}}]
 SCALARS_DISTINCT = [None, 2, 3, 7, 12, "s", "t", "hello"]
+
+
+def translate():
+    return tr.run()
 
 
 # ----------------------------------------------------------------------------- expression / program AST helpers
@@ -417,7 +423,7 @@ def g_probe(rng):
 
 
 def gen_cases(rng, tier):
-    n_fn, n_e2e, n_probe = (4000, 300, 60) if tier == "quick" else (100000, 6000, 600)
+    n_fn, n_e2e, n_probe = (5000, 300, 60) if tier == "quick" else (200000, 10000, 1000)
     cases = enum_fn_shapes(3)
     cases += [g_fn(rng) for _ in range(n_fn)]
     modes = [None] * 12 + ["clash", "clash", "surplus", "unknown-named", "dup-named", "reserved"]
